@@ -12,6 +12,7 @@ DECIDED += "; R7 the virtual clock is read only from host code or under an enter
 DECIDED += '; R8 enter-guards restore their thread-locals on every path of drop, and a guard-managed Cell thread-local is written only by the function that builds the guard and by the guard'
 DECIDED += "; R9 the host's tasks are destroyed (crash / bounce) while a runtime is entered: destructors read the virtual clock, not the wall clock (shared C05-R11)"
 DECIDED += "; R8 also: a nesting guard writes back the value it saved; the software factory runs inside the host's runtime (shared C04-R5)"
+DECIDED += '; the client and the host runtime are built alike (shared C05-R5); entering a scope installs its own value of a scoped thread-local on every path'
 ASSUMPTIONS = ["IndexMap/IndexSet/VecDeque/Vec/BTreeMap iterate in a process-independent order",
                "SmallRng::seed_from_u64/from_seed are pure functions of the seed"]
 
